@@ -153,9 +153,8 @@ func (c Int8) Log1pExp(a ConstScalar) Scalar {
     c.Log1p(c)
   } else
   if v <= 33.3 {
-    c.Neg(a)
-    c.Exp(c)
-    c.Add(c, a)
+    // computed from the value read above (the receiver may be a)
+    c.SetFloat64(math.Log1p(math.Exp(v)))
   } else {
     c.Set(a)
   }
